@@ -28,7 +28,10 @@ META = dict(
          'that the restored pool has the same task instances with the same '
          'status (preparing tasks come back waiting with the previous submit '
          'number), flows, held flag, flow-wait / manual flags, completed '
-         'outputs, prerequisite satisfaction, and held-task set.',
+         'outputs, prerequisite satisfaction, and held-task set, and that the '
+         'flow counter restored by update_flow_mgr -> FlowMgr.load_from_db '
+         'is the highest flow number ever created (flows no longer in the '
+         'pool included), so the next new flow gets an unused number.',
     note='fixture "basic", two pooled tasks (a@2 with a custom output, b@2 '
          'with a two-atom prerequisite); real sqlite files in a scratch '
          'directory removed on every path; stop modes, broadcasts (C22), '
@@ -41,8 +44,9 @@ META = dict(
                'CylcWorkflowDAO.execute_queued_items / '
                'select_task_pool_for_restart / select_task_prerequisites / '
                'select_tasks_to_hold', 'TaskPool.load_db_task_pool_for_restart',
-               'TaskPool.load_db_tasks_to_hold'],
-    bounds=['a@2: 8 statuses, held, flows {1}/{1,2}, submit number 1..2, '
+               'TaskPool.load_db_tasks_to_hold', 'TaskPool.update_flow_mgr',
+               'FlowMgr.get_flow / load_from_db'],
+    bounds=['quick: submit number 1, a@1 atom not forced; thorough: all', 'a@2: 8 statuses, held, flows {1}/{1,2}, submit number 1..2, '
             'flow-wait, manual flags, outputs x / started / succeeded bits '
             'consistent with the status', 'b@2: waiting, atoms in 3 states '
             'each, held'],
@@ -74,12 +78,19 @@ def mkpool(path, restart=False):
     return pool, mgr
 
 
-def _run(sa, held_a, fl2, sub, fwait, manual, xout, ax, a1, held_b):
+def _run(sa, held_a, fl2, sub, fwait, manual, xout, ax, a1, held_b,
+         extra=False):
     d = tempfile.mkdtemp(prefix='cylc-verif-c19-')
     try:
         path = os.path.join(d, 'db')
         pool, mgr = mkpool(path)
         flows = {1, 2} if fl2 else {1}
+        # flows are created through the flow manager (cold start: flow 1;
+        # `cylc trigger --flow=new`: the next number); one extra flow may
+        # have run to completion already - none of its tasks is pooled
+        nflows = len(flows) + (1 if extra else 0)
+        for _ in range(nflows):
+            pool.flow_mgr.get_flow()
         a = fx.itask(CFG, 'a', 2, flows=flows)
         b = fx.itask(CFG, 'b', 2)
         # (flow-wait and the manual flag are known when the task is spawned)
@@ -124,6 +135,13 @@ def _run(sa, held_a, fl2, sub, fwait, manual, xout, ax, a1, held_b):
         dao = mgr2.pri_dao
         dao.select_task_pool_for_restart(pool2.load_db_task_pool_for_restart)
         pool2.load_db_tasks_to_hold()
+        pool2.update_flow_mgr()
+        # the flow counter: the next new flow gets a number never used before
+        fm = pool2.flow_mgr
+        if fm.counter != nflows or set(fm.flows) != flows:
+            return False
+        if fm.get_flow() != nflows + 1:
+            return False
         dao.close()
         got = {t.identity: t for t in pool2.get_tasks()}
         if set(got) != {'2/a', '2/b'}:
@@ -160,25 +178,29 @@ def _run(sa, held_a, fl2, sub, fwait, manual, xout, ax, a1, held_b):
 
 def roundtrip(sa: int, held_a: bool, fl2: bool, sub: int, fwait: bool,
               manual: bool, xout: bool, ax: int, a1: int,
-              held_b: bool) -> bool:
+              held_b: bool, extra: bool) -> bool:
     """
-    pre: sl(sa=sa)
+    pre: sl(sa=sa, extra=extra)
     pre: 0 <= sa < 8 and 1 <= sub <= 2 and 0 <= ax < 3 and 0 <= a1 < 3
+    pre: SLICE.get('full', True) or (sub == 1 and a1 <= 1)
     post: _
     """
     sa, sub, ax, a1 = (fork_int(sa, 0, 7), fork_int(sub, 1, 2),
                        fork_int(ax, 0, 2), fork_int(a1, 0, 2))
-    bits = [fork_bool(x) for x in (held_a, fl2, fwait, manual, xout, held_b)]
-    held_a, fl2, fwait, manual, xout, held_b = bits
+    bits = [fork_bool(x) for x in (held_a, fl2, fwait, manual, xout, held_b,
+                                   extra)]
+    held_a, fl2, fwait, manual, xout, held_b, extra = bits
     with concrete():
-        return _run(sa, held_a, fl2, sub, fwait, manual, xout, ax, a1, held_b)
+        return _run(sa, held_a, fl2, sub, fwait, manual, xout, ax, a1, held_b,
+                    extra)
 
 
 def OBLIGATIONS(tier):
     big = tier == 'thorough'
     t = 1800 if big else 170
-    return [Ob(f'roundtrip[a={ST[s]}]', 'roundtrip', timeout=t,
-               slice={'sa': s}) for s in range(8)]
+    return [Ob(f'roundtrip[a={ST[s]},extra-flow={int(e)}]', 'roundtrip',
+               timeout=t, twin=(s == 0), slice={'sa': s, 'extra': e, 'full': big})
+            for s in range(8) for e in (False, True)]
 
 
 def VALIDATE():
@@ -186,4 +208,5 @@ def VALIDATE():
     assert _run(0, False, False, 1, False, False, False, 0, 0, False)
     assert _run(2, True, True, 2, False, True, False, 1, 2, True)
     assert _run(5, False, False, 1, True, False, False, 2, 1, False)
-    return n + 3
+    assert _run(0, False, True, 1, False, False, False, 0, 0, False, True)
+    return n + 4
